@@ -225,10 +225,10 @@ fn tables(ctx: &mut Ctx) {
 }
 
 fn truthy_reps() -> Vec<E> {
-    vec![E::Bool(true), E::Int(1), E::Str("x".into()), E::Arr(vec![E::Int(0)]), E::Float(1.5), E::Char('a'), E::Map(vec![(E::Int(1), E::Int(1))]), E::Int(-1)]
+    vec![E::Bool(true), E::Int(1), E::Str("x".into()), E::Arr(vec![E::Int(0)]), E::Float(1.5), E::Char('a'), E::Map(vec![(E::Int(1), E::Int(1))]), E::Int(-1), E::Float(1e-17), E::Float(f64::NAN), E::Float(-5e-324), E::Byte(1)]
 }
 fn falsey_reps() -> Vec<E> {
-    vec![E::Bool(false), E::Int(0), E::Str("".into()), E::Arr(vec![]), E::Float(0.0), E::Null, E::Map(vec![]), E::Char('\0')]
+    vec![E::Bool(false), E::Int(0), E::Str("".into()), E::Arr(vec![]), E::Float(0.0), E::Null, E::Map(vec![]), E::Char('\0'), E::Float(-0.0), E::Byte(0)]
 }
 
 fn ifchains(ctx: &mut Ctx) {
@@ -238,7 +238,7 @@ fn ifchains(ctx: &mut Ctx) {
             for has_else in [false, true] {
                 for form in 0..3u8 {
                     for as_value in [false, true] {
-                        for rot in 0..4usize {
+                        for rot in 0..6usize {
                             idx += 1;
                             if !ctx.mine(idx) {
                                 continue;
